@@ -15,8 +15,8 @@ PROP = dict(
     regen=['crctable', 'consts', 'integconsts', 'decapiconsts', 'decapistdfac'],
     extra=_extra,
     theorems=['Fit.C07.C07_decode_from_clean', 'Fit.C07.C07_boundary_clean', 'Fit.C07.C07_reset_is_new', 'Fit.C07.C07_integrity_check_is_new',
-              'Fit.C07.C07_history_indep_partial',
-              'Fit.C07.C07_rejected_everywhere_partial', 'Fit.C07.C07_full_fails', 'Fit.C07.C07_witness_peek_past'],
+              'Fit.C07.C07_history_indep', 'Fit.C07.C07_rejected_everywhere', 'Fit.C07.C07_decode_ignores_tail', 'Fit.C07.C07_peek_transparent',
+              'Fit.C07.C07_former_witnesses'],
     families=[dict(name='dechist', prop=True), dict(name='decapi')],
     trusted_base=STD_TRUST + [
         "the state-machine model of the decoder API (FitModel/DecoderApi.lean; see C03) tied to decoder.go by the families dechist and decapi: per-operation results, returned messages and listener calls of whole API histories compared between the real decoder object and the model",
@@ -25,14 +25,13 @@ PROP = dict(
     ],
     assumptions=[
         "streams are byte strings shorter than 4 GiB (Decoder.cur is a uint32); exact-n reader (C08); acyclic factory components (see C03)",
-        "C07_history_indep_partial excludes the class of the open finding KF-C07-2 (F09): histories in which some PeekFileId attempts to read a record although the data window declared by the header is exhausted; C07_full_fails shows the unrestricted statement is false on the pinned tree",
         "after a PeekFileId whose last record overran the data window (malformed predecessor) the specification demands nothing of a following Discard (position not comparable with a new decoder's) until Reset",
         "the verdict of CheckIntegrity itself is C04's subject (nothing demanded here); its effect on what follows is demanded",
     ],
 )
 
 TEXT = dict(
-    technique='Lean 4 proof: simulation between the decoder object (state machine) and a specification that only uses new decoders, by phases (start / header read / file id peeked / peek failed / dead / blind); loop-splitting lemma (the record loop of Decode continues the loop of PeekFileId), fuel irrelevance, header decode independent of the checksum option, Discard ends at the end of the data window wherever inside the window it starts; differential correspondence and the specification as oracle on the real decoder',
-    text='C07_history_indep_partial: for every byte stream (< 4 GiB), option set, acyclic factory and every history of Decode / DecodeWithContext (live or cancelled) / PeekFileHeader / PeekFileId / Discard / Next / CheckIntegrity+re-seek / Reset(new reader, new options), every result the decoder object returns — outcome class, FIT, header, file id, listener calls — equals what the specification computes with new decoders on the bytes of the current sequence; hypothesis: no PeekFileId reads past its data window (class of the open finding F09). C07_boundary_clean: every operation ending a sequence leaves per-sequence state and look-ups as new. C07_reset_is_new (no hypothesis at all): after Reset(r, opts) the whole state of the object equals decoder.New(r, opts); C07_integrity_check_is_new: after CheckIntegrity + re-seek a live decoder equals a new one on the same stream, whatever the check found. C07_rejected_everywhere_partial: a sequence a new decoder rejects with e is rejected with e after every history. C07_full_fails / C07_witness_peek_past: the unrestricted statement is false on the pinned tree (F09). F08 (look-ups surviving Discard / Reset / CheckIntegrity after PeekFileId) and F10 (stale read-buffer bytes after a failing CheckIntegrity) were reported by this check on the unchanged tree, repaired in /repo (bbd9d2d, 318ff80) and are now part of the proved statement.',
-    note='Partial by exactly one class (F09, open: needs an API decision on PeekFileId of a sequence without file_id). Proved about the model; tie = differential testing of whole histories (6-8k histories quick, 160k thorough, plus the decapi family).',
+    technique='Lean 4 proof: simulation between the decoder object (state machine) and a specification that only uses new decoders, by phases (start / header read / file id peeked / peek failed / dead / blind); loop-splitting lemma (the record loop of Decode continues the loop of PeekFileId), tail independence by a relational Hoare layer over the result monad (every function of the model on a longer stream does what it does on the shorter one), fuel irrelevance, header decode independent of the checksum option, Discard ends at the end of the data window wherever inside the window it starts; differential correspondence and the specification as oracle on the real decoder',
+    text='C07_history_indep (full strength, no exclusion): for every byte stream (< 4 GiB), option set, acyclic factory and every history of Decode / DecodeWithContext (context live, cancelled before the call, or cancelled at any record boundary during it) / PeekFileHeader / PeekFileId / Discard / Next / CheckIntegrity+re-seek / Reset(new reader, new options), every result the decoder object returns — outcome class, FIT, header, file id, listener calls — equals what the specification computes with new decoders on the bytes of the current sequence. C07_boundary_clean: every operation ending a sequence leaves per-sequence state and look-ups as new. C07_reset_is_new (no hypothesis at all): after Reset(r, opts) the whole state of the object equals decoder.New(r, opts); C07_integrity_check_is_new: after CheckIntegrity + re-seek a live decoder equals a new one on the same stream, whatever the check found. C07_rejected_everywhere: a sequence a new decoder rejects with e is rejected with e after every history. C07_decode_ignores_tail: what a new decoder returns on S ++ T is what it returns on S alone (same FIT, same listener calls, T left unread; same error unless S merely ended early) — so "the stream from the current sequence on" in the specification is "the bytes of the sequence". C07_peek_transparent / C07_former_witnesses: the witnesses of the three repaired findings now agree with the specification. F08 (look-ups surviving Discard / Reset / CheckIntegrity after PeekFileId), F10 (stale read-buffer bytes after a failing CheckIntegrity) and F09 (PeekFileId reading past a sequence without file_id) were reported by this check on the unchanged tree, repaired in /repo (bbd9d2d, 318ff80, 2f8ae41) and are now part of the proved statement; reverting any of the three makes the check print a VIOLATION again.',
+    note='No exclusion left. Proved about the model; tie = differential testing of whole histories (6-8k histories quick, 160k thorough, plus the decapi family).',
 )
